@@ -273,19 +273,35 @@ int main(int argc, char **argv) {
             pf("name", o); pf("donor", o2); NL; }
         OP("n1to1_global") { cgint_f B = ti(), ffn = fn, n = -1; int cn = -1;
             if (MODEF) cg_n1to1_global_f(&ffn, &B, &n, &ier); else { ier = cg_n1to1_global(fn, B, &cn); n = cn; } IER(ier); if (!ier) printf(" n=%d", (int)n); NL; }
-        OP("1to1_read_global") { cgint_f B = ti(), ffn = fn; int n = ti(), k; fout o = fo(32 * n), o2 = fo(32 * n), o3 = fo(32 * n);
+        OP("1to1_read_global") { cgint_f B = ti(), ffn = fn; int n = ti(), k, i; fout o = fo(32 * n), o2 = fo(32 * n), o3 = fo(32 * n);
+            /* range / donor_range are INTEGER(2*Ndim, N), transform is INTEGER(Ndim, N) with Ndim = cell dimension of the base:
+               all three arrays are compared in full (guard words behind them included) */
             cgsize_t *r = (cgsize_t *)calloc(6 * n + 6, sizeof(cgsize_t)), *dr = (cgsize_t *)calloc(6 * n + 6, sizeof(cgsize_t));
-            if (MODEF) { cgint_f *tr = (cgint_f *)calloc(3 * n + 3, sizeof(cgint_f));
+            cgint_f *tr = (cgint_f *)calloc(3 * n + 3, sizeof(cgint_f));
+            if (MODEF) {
                 FMNAME(cg_1to1_read_global_f, CG_1TO1_READ_GLOBAL_F)(&ffn, &B, FP(o), FP(o2), FP(o3), r, dr, tr, &ier, (size_t)32, (size_t)32, (size_t)32);
-                IER(ier); if (!ier) printf(" h=%016llx", fnv(r, sizeof(cgsize_t) * 6 * n)); }
-            else { char **a = (char **)malloc(n * sizeof(char *)), **b = (char **)malloc(n * sizeof(char *)), **c = (char **)malloc(n * sizeof(char *));
+            } else { char **a = (char **)malloc(n * sizeof(char *)), **b = (char **)malloc(n * sizeof(char *)), **c = (char **)malloc(n * sizeof(char *));
                 cgsize_t **rr = (cgsize_t **)malloc(n * sizeof(cgsize_t *)), **dd = (cgsize_t **)malloc(n * sizeof(cgsize_t *)); int **tt = (int **)malloc(n * sizeof(int *));
-                int ng = 0; cg_n1to1_global(fn, B, &ng); if (ng > n) ng = n;
+                int ng = 0, cd = 3, pd = 3; char bn[33]; cg_n1to1_global(fn, B, &ng); if (ng > n) ng = n;
+                cg_base_read(fn, B, bn, &cd, &pd);
                 for (k = 0; k < n; k++) { a[k] = (char *)calloc(33, 1); b[k] = (char *)calloc(33, 1); c[k] = (char *)calloc(33, 1); rr[k] = (cgsize_t *)calloc(6, sizeof(cgsize_t)); dd[k] = (cgsize_t *)calloc(6, sizeof(cgsize_t)); tt[k] = (int *)calloc(3, sizeof(int)); }
                 ier = cg_1to1_read_global(fn, B, a, b, c, rr, dd, tt);
-                if (!ier) for (k = 0; k < ng; k++) { fout e; e.len = 32; e.a = o.a + 32 * k; fref(e, a[k]); e.a = o2.a + 32 * k; fref(e, b[k]); e.a = o3.a + 32 * k; fref(e, c[k]); memcpy(r + 6 * k, rr[k], 6 * sizeof(cgsize_t)); }
-                IER(ier); if (!ier) printf(" h=%016llx", fnv(r, sizeof(cgsize_t) * 6 * n)); }
+                if (!ier) for (k = 0; k < ng; k++) { fout e; e.len = 32; e.a = o.a + 32 * k; fref(e, a[k]); e.a = o2.a + 32 * k; fref(e, b[k]); e.a = o3.a + 32 * k; fref(e, c[k]);
+                    for (i = 0; i < 2 * cd; i++) { r[2 * cd * k + i] = rr[k][i]; dr[2 * cd * k + i] = dd[k][i]; }
+                    for (i = 0; i < cd; i++) tr[cd * k + i] = tt[k][i]; } }
+            IER(ier); if (!ier) printf(" h=%016llx hd=%016llx ht=%016llx", fnv(r, sizeof(cgsize_t) * (6 * n + 6)), fnv(dr, sizeof(cgsize_t) * (6 * n + 6)), fnv(tr, sizeof(cgint_f) * (3 * n + 3)));
             pf("conn", o); pf("zone", o2); pf("donor", o3); NL; }
+        /* 2-D structured zone and 1-to-1 interface (cell dimension 2: the packing of the global reader differs from 3-D) */
+        OP("zone2") { fstr n = ts(); int B = ti(); long m = ti(); int Z = 0; cgsize_t sz[6];
+            sz[0] = sz[1] = m; sz[2] = sz[3] = m - 1; sz[4] = sz[5] = 0;
+            IER(cg_zone_write(fn, B, eqv(n, 64), sz, CGNS_ENUMV(Structured), &Z)); printf(" Z=%d", Z); NL; }
+        OP("1to1_write2") { cgint_f B = ti(), Z = ti(), ffn = fn, fI = -1; fstr n = ts(), dn = ts(); int v = ti(); int I = -1;
+            static const int T[4][2] = {{1, 2}, {-2, 1}, {2, -1}, {-1, -2}};
+            /* equal extents (1,1) on both sides so that every transform is consistent; positions vary with v */
+            cgsize_t r[4] = {1 + v % 2, 1 + (v / 2) % 2, 2 + v % 2, 2 + (v / 2) % 2}, dr[4] = {1 + v % 3, 1 + (v / 3) % 2, 2 + v % 3, 2 + (v / 3) % 2};
+            if (MODEF) { cgint_f tr[2]; tr[0] = T[v & 3][0]; tr[1] = T[v & 3][1]; FMNAME(cg_1to1_write_f, CG_1TO1_WRITE_F)(&ffn, &B, &Z, n.p, dn.p, r, dr, tr, &fI, &ier, (size_t)n.len, (size_t)dn.len); I = fI; }
+            else { int tr[2]; tr[0] = T[v & 3][0]; tr[1] = T[v & 3][1]; ier = cg_1to1_write(fn, B, Z, eqv(n, 32), eqv(dn, 32), r, dr, tr, &I); }
+            IER(ier); if (!ier) printf(" I=%d", I); NL; }
         OP("hole_write") { cgint_f B = ti(), Z = ti(), ffn = fn, fI = -1, nps = 1; fstr n = ts(); int I = -1; cgsize_t np = 2, pts[6] = {1, 1, 1, 2, 2, 2};
             CGNS_ENUMT(GridLocation_t) loc = CGNS_ENUMV(Vertex); CGNS_ENUMT(PointSetType_t) ps = CGNS_ENUMV(PointList);
             if (MODEF) { FMNAME(cg_hole_write_f, CG_HOLE_WRITE_F)(&ffn, &B, &Z, n.p, &loc, &ps, &nps, &np, pts, &fI, &ier, (size_t)n.len); I = fI; }
